@@ -107,6 +107,8 @@ func (r *runningRoutine[K, V]) execute(
 		select {
 		case <-ctx.Done():
 			err = context.Canceled
+			// the previous instance must have returned before we report our own exit
+			<-waitCh
 		case <-waitCh:
 		}
 	} else if err = ctx.Err(); err != nil {
